@@ -22,7 +22,12 @@ class P(MetProp):
         return [self.one(rng, m, i) for i in range(n)]
 
     def label_sets(self, rng):
-        k = rng.randrange(5)
+        k = rng.randrange(7)
+        if k == 5:
+            # values holding the bytes a key encoding might use as separators (0xff as in Prometheus' labels.Hash, NUL, comma, equals)
+            return [{"a": "x\udcffb\udcffy"}, {"a": "x", "b": "y"}, {"a": "x\udcff", "b": "y"}, {"a": "x", "b": "\udcffy"}]
+        if k == 6:
+            return [{"a": "x\x00b\x00y"}, {"a": "x", "b": "y"}, {"a": "x,b=y"}, {"a": "x", "b": ""}, {"a": "x\x01\x00\x00\x00b", "b": "y"}]
         if k == 0:
             return [{"ab": "c"}, {"a": "bc"}, {"abc": ""}, {"a": "b", "c": ""}]
         if k == 1:
